@@ -37,6 +37,8 @@ def invariantCulture : Culture where
   eraNamesCE := ["A.D.", "C.E.", "AD", "CE"].map String.toList
   eraPrimaryBCE := "B.C.".toList
   eraPrimaryCE := "A.D.".toList
+  eraNamesX := [["A.M.", "AM"], ["A.M.", "AM"], ["A.P.", "AP"], ["A.H.", "AH"], ["B.E.", "BE"]].map (·.map String.toList)
+  eraPrimaryX := ["A.M.", "A.M.", "A.P.", "A.H.", "B.E."].map String.toList
 
 /-- a segment of a LocalDateTime pattern with embedded patterns: plain steps of the outer builder, an embedded
     LocalDate pattern `ld<…>`, an embedded LocalTime pattern `lt<…>` (one format/parse action pair each) -/
@@ -292,6 +294,69 @@ def Culture.offsetTextsCustom (cu : Culture) : Bool :=
 def Culture.dtTextsNoL (cu : Culture) : Bool :=
   [cu.longDate, cu.shortTime, cu.fullDateTime, cu.shortDate, cu.longTime].all (fun t => !t.contains 'l')
 
+/-! ### template values in other calendars -/
+
+/-- the era step of a pattern whose template value is in a single-era calendar reads that calendar's era names -/
+def retargetStep (cal : Nat) : Step → Step
+  | .era => if 3 ≤ cal then .eraC cal else .era
+  | s => s
+
+def retargetCompiled (cal : Nat) (c : Compiled) : Compiled := { c with steps := c.steps.map (retargetStep cal) }
+
+def retargetSeg (cal : Nat) : Seg → Seg
+  | .plain ss => .plain (ss.map (retargetStep cal))
+  | .date c => .date (retargetCompiled cal c)
+  | .time c => .time c
+
+def retargetPat (cal : Nat) : Pat → Pat
+  | .stepped c => .stepped (retargetCompiled cal c)
+  | .segmented cu used segs => .segmented cu used (segs.map (retargetSeg cal))
+  | p => p
+
+/-- `_LocalDatePatternParser.parse_pattern` with a template value in calendar `cal`: `R` resolves to the shared ISO
+    pattern only for an ISO template, `r` always (both keep the DEFAULT template value, see `effTmplDateC`) -/
+def compileDateC (cal : Nat) (cu : Culture) (text : Text) : R Pat :=
+  match text with
+  | [c] =>
+    if c = 'R' ∧ cal ≠ 0 then mapR (retargetPat cal) (steppedOf (compileCustom .date cu "uuuu'-'MM'-'dd".toList))
+    else if c = 'R' ∨ c = 'r' then compileDate cu text
+    else mapR (retargetPat cal) (compileDate cu text)
+  | _ => mapR (retargetPat cal) (compileDate cu text)
+
+def TmplC.default : TmplC := ⟨0, 2000, 1, 1, 0⟩
+
+/-- the template value a LocalDate pattern object parses with -/
+def effTmplDateC (tc : TmplC) (text : Text) : TmplC :=
+  match text with
+  | [c] => if c = 'r' ∨ (c = 'R' ∧ tc.cal = 0) then TmplC.default else tc
+  | _ => tc
+
+/-- `_LocalDateTimePatternParser.parse_pattern` with a template value in calendar `cal`: `o O R s S` resolve to the shared
+    built-in patterns only for an ISO template, `r` always -/
+def compileDateTimeC (tc : TmplC) (cu : Culture) (text : Text) : R Pat :=
+  let tm : Tmpl := ⟨tc.y, tc.m, tc.d, tc.nod⟩
+  match text with
+  | [c] =>
+    if tc.cal ≠ 0 ∧ (c = 'o' ∨ c = 'O') then
+      mapR (retargetPat tc.cal) (steppedOf (compileCustom (.datetime tm) cu "uuuu'-'MM'-'dd'T'HH':'mm':'ss'.'fffffff".toList))
+    else if tc.cal ≠ 0 ∧ c = 'R' then
+      mapR (retargetPat tc.cal) (steppedOf (compileCustom (.datetime tm) cu "uuuu'-'MM'-'dd'T'HH':'mm':'ss'.'fffffffff".toList))
+    else if tc.cal ≠ 0 ∧ c = 's' then
+      mapR (retargetPat tc.cal) (steppedOf (compileCustom (.datetime tm) cu "uuuu'-'MM'-'dd'T'HH':'mm':'ss".toList))
+    else if tc.cal ≠ 0 ∧ c = 'S' then
+      mapR (retargetPat tc.cal) (steppedOf (compileCustom (.datetime tm) cu "uuuu'-'MM'-'dd'T'HH':'mm':'ss;FFFFFFFFF".toList))
+    else if c = 'o' ∨ c = 'O' ∨ c = 'r' ∨ c = 'R' ∨ c = 's' ∨ c = 'S' then compileDateTime tm cu text
+    else mapR (retargetPat tc.cal) (compileDateTime tm cu text)
+  | _ => mapR (retargetPat tc.cal) (compileDateTime tm cu text)
+
+/-- the template value a LocalDateTime pattern object parses with -/
+def effTmplC (tc : TmplC) (text : Text) : TmplC :=
+  match text with
+  | [c] =>
+    if c = 'r' then TmplC.default
+    else if tc.cal = 0 ∧ (c = 'o' ∨ c = 'O' ∨ c = 'R' ∨ c = 's' ∨ c = 'S') then TmplC.default else tc
+  | _ => tc
+
 def compile (ty : PType) (cu : Culture) (text : Text) : R Pat :=
   match ty with
   | .time => compileTime cu text
@@ -300,5 +365,7 @@ def compile (ty : PType) (cu : Culture) (text : Text) : R Pat :=
   | .datetime tm => compileDateTime tm cu text
   | .annual tm td => compileAnnual tm td cu text
   | .duration => compileDuration cu text
+  | .dateC tc => compileDateC tc.cal cu text
+  | .datetimeC tc => compileDateTimeC tc cu text
 
 end Pyoda.Text
